@@ -1125,8 +1125,36 @@ def s_try_branch_option(eng, frame, st, args, fj, depth, site):
             yield s2, ("agg", CF, "Break", (("0", NONE),))
 
 
-def s_from_residual_option(eng, frame, st, args, fj, depth, site):
-    yield st, NONE
+def s_from_residual(eng, frame, st, args, fj, depth, site):
+    tys = (fj or {}).get("args") or []
+    if tys and tys[0].startswith("std::option::Option"):
+        yield st, NONE
+    else:
+        RES = "std::result::Result"
+        e = proj(proj(args[0], ("v", "Err")), ("f", RES, "0"))
+        yield st, ("agg", RES, "Err", (("0", ("call", "From::from", (e,), None)),))
+
+
+def s_try_branch(eng, frame, st, args, fj, depth, site):
+    tys = (fj or {}).get("args") or []
+    CF = "std::ops::ControlFlow"
+    if tys and tys[0].startswith("std::option::Option"):
+        yield from s_try_branch_option(eng, frame, st, args, fj, depth, site)
+        return
+    RES = "std::result::Result"
+    v = args[0]
+    if v[0] == "agg" and v[2] in ("Ok", "Err"):
+        if v[2] == "Ok":
+            yield st, ("agg", CF, "Continue", (("0", proj(v, ("f", RES, "0"))),))
+        else:
+            yield st, ("agg", CF, "Break", (("0", v),))
+        return
+    s1 = st.fork()
+    s1.cond.append(("variant", v, "Ok", True))
+    yield s1, ("agg", CF, "Continue", (("0", proj(proj(v, ("v", "Ok")), ("f", RES, "0"))),))
+    s2 = st.fork()
+    s2.cond.append(("variant", v, "Err", True))
+    yield s2, ("agg", CF, "Break", (("0", v),))
 
 
 def s_duration_since(eng, frame, st, args, fj, depth, site):
@@ -1199,6 +1227,8 @@ DEFAULT_SUMMARIES = {
     "std::option::Option::copied": s_option_copied,
     "std::option::Option::cloned": s_option_copied,
     "std::option::Option::unwrap": s_option_unwrap,
+    "std::ops::Try::branch": s_try_branch,
+    "std::ops::FromResidual::from_residual": s_from_residual,
     "std::ops::Add::add": s_add,
     "std::ops::Sub::sub": s_sub,
     "std::convert::Into::into": s_into,
